@@ -45,3 +45,10 @@ static void ref_init_all(REF_TP_T *tp)
     ref_init_task_PING.taskpool = (parsec_taskpool_t *)tp; pingpong_PING_internal_init(NULL, &ref_init_task_PING);
     ref_init_task_PONG.taskpool = (parsec_taskpool_t *)tp; pingpong_PONG_internal_init(NULL, &ref_init_task_PONG);
 }
+
+/* make_key of class c: direct calls (no function pointer read from a table indexed symbolically) */
+static parsec_key_t ref_make_key(const REF_TP_T *tp, int c, const parsec_assignment_t *l)
+{
+    if (c == 0) return __jdf2c_make_key_PING((const parsec_taskpool_t *)tp, l);
+    (void)c; return __jdf2c_make_key_PONG((const parsec_taskpool_t *)tp, l);
+}
